@@ -1,4 +1,5 @@
 import CCT.Props.C03
+import CCT.Props.C08
 /-!
 # C04 — root chain integrity over arbitrary histories of offered updates
 
@@ -7,7 +8,7 @@ The only state of the protocol is the client's trusted root.  A client that repl
 insufficient or self-appointed keys) and every signature scheme.
 -/
 namespace CCT.C04
-open CCT CCT.C15 CCT.C03
+open CCT CCT.C15 CCT.C03 CCT.C07
 open Classical
 
 /-- the client: replace the trusted root exactly when the library accepts the offer -/
@@ -94,5 +95,34 @@ theorem verdict_history_free (C : CryptoFns) (init : J) (before : List J) (o : J
 theorem same_state_same_future (C : CryptoFns) (init : J) (h1 h2 rest : List J) (h : run C init h1 = run C init h2) :
     run C init (h1 ++ rest) = run C init (h2 ++ rest) := by
   simp only [run, List.foldl_append] at h ⊢; rw [h]
+
+-- persistence ------------------------------------------------------------------------------------------------------------
+
+/-- a client that writes its trusted root to disk and loads it back before looking at each offer -/
+noncomputable def stepPersist (C : CryptoFns) (cur offer : J) : J :=
+  if verifyRootJ C (canon cur) offer = .ok () then offer else canon cur
+
+noncomputable def runPersist (C : CryptoFns) (init : J) (offers : List J) : J := offers.foldl (stepPersist C) init
+
+/-- **persisting the trusted root to disk between steps is transparent**: the persisting client accepts exactly the same offers and ends
+with the same root (up to the canonical re-ordering a reload performs) as the client that keeps it in memory -/
+theorem persistence_transparent (C : CryptoFns) (offers : List J) (hw : ∀ o ∈ offers, o.WF) :
+    ∀ (a b : J), a.WF → b.WF → canon a = canon b → canon (runPersist C a offers) = canon (run C b offers) := by
+  induction offers with
+  | nil => intro a b _ _ h; exact h
+  | cons o r ih =>
+    intro a b ha hb hab
+    simp only [runPersist, run, List.foldl_cons]
+    have ho := hw o (by simp)
+    have e1 : verifyRootJ C (canon a) o = verifyRootJ C b o := by
+      rw [hab, C08.reload_trusted_only C b o hb ho]
+    have key : canon (stepPersist C a o) = canon (step C b o) ∧ (stepPersist C a o).WF ∧ (step C b o).WF := by
+      unfold stepPersist step
+      rw [e1]
+      by_cases hv : verifyRootJ C b o = .ok ()
+      · rw [if_pos hv, if_pos hv]; exact ⟨rfl, ho, ho⟩
+      · rw [if_neg hv, if_neg hv]; exact ⟨by rw [canon_idem a ha, hab], canon_wf a ha, hb⟩
+    exact ih (fun x hx => hw x (by simp [hx])) _ _ key.2.1 key.2.2 key.1
+
 
 end CCT.C04
